@@ -449,6 +449,9 @@ class MutableMultiMapping(
                 *((k, v) for k, v in self._list if k != key),
                 *((key, value) for value in values),
             ]
+            # the key's pairs are at the end of the list now: keep the order of the
+            # keys() / items() view in step with the order of first occurrence
+            self._dict.pop(key, None)
             self._dict[key] = values[-1]
         elif key in self:
             del self[key]
